@@ -22,6 +22,9 @@ RULE = ("Greenlets: every chain main <- G0 <- G1 <- G2 (length 1..3, thorough 1.
 ASSUMPTIONS = ["CPython only (a greenlet's outermost frame has f_back None)", "greenback's own coroutine wrapper frames (greenback_shim, adapt_awaitable) are not required to be hidden"]
 
 
+RULE += ' Round 9: greenlets entered through a C callable making 1-3 Python calls, extracted 1-2 times at every suspension.'
+
+
 def legs(tier):
     from vlib.runner import Leg
     return [Leg("3.12", 4)]
